@@ -95,7 +95,11 @@ def cases(draw, tier):
     if kind == "same_object":
         base = draw(G.inflated_dfa_specs(max_states=4, max_sigma=2))
         return {"kind": kind, "d1": base, "d2": base, "same_object": True}
-    base = draw(G.dfa_specs(min_states=1 if draw(st.integers(0, 7)) == 0 else 2, max_states=5, max_sigma=2, pool=G.POOL[:12]))
+    if draw(st.integers(0, 7)) == 0:
+        # symbols of several characters whose characters are symbols themselves (a transition on 'ab' is not an a-step followed by a b-step)
+        base = draw(G.dfa_specs(min_states=2, max_states=4, sigma=draw(st.sampled_from([["a", "ab", "b"], ["a", "aa"], ["ab", "b", "ba"]])), pool=G.POOL[:12]))
+    else:
+        base = draw(G.dfa_specs(min_states=1 if draw(st.integers(0, 7)) == 0 else 2, max_states=5, max_sigma=2, pool=G.POOL[:12]))
     pool2 = G.POOL if draw(st.booleans()) else G.POOL[:12]
     if kind == "independent":
         other = draw(G.dfa_specs(max_states=5, sigma=base["S"], pool=pool2))
@@ -140,6 +144,50 @@ RULE = ("pairs: D vs renamed copy / with unreachable states added / with a state
 CLAUSES = [
     Clause("isomorphic1", cases, make_run("dfa_isomorphic1"), quick=1200, thorough=10000, exhaustive=ex, rule="dfa_isomorphic1: " + RULE),
     Clause("isomorphic", cases, make_run("dfa_isomorphic"), quick=1200, thorough=10000, exhaustive=ex, rule="dfa_isomorphic: " + RULE),
+]
+
+
+def chain_dfa(n, prefix, accept_last, width=1):
+    """Counter chain over {a,b}: a moves on, b stays (width 1) or moves two on (width 2); the last state is a sink."""
+    Q = ["%s%d" % (prefix, i) for i in range(n)]
+    d = []
+    for i in range(n):
+        d.append([Q[i], "a", Q[min(i + 1, n - 1)]])
+        d.append([Q[i], "b", Q[i] if width == 1 else Q[min(i + 2, n - 1)]])
+    return {"Q": Q, "S": ["a", "b"], "d": d, "q0": Q[0], "F": [Q[n - 1]] if accept_last else [Q[n // 2]], "eps": None}
+
+
+def make_run_large(fname):
+    inner = make_run(fname)
+
+    def run(case):
+        global BUDGET
+        old = BUDGET
+        BUDGET = 40000000
+        try:
+            r = inner(case)
+        finally:
+            BUDGET = old
+        return {"nt": True, "cls": [case["kind"], "isomorphic" if r["out"]["answer"] else "not_isomorphic"], "events": r.get("events", 0), "out": r["out"]}
+    return run
+
+
+def ex_large(tier):
+    sizes = [1200, 1500] if tier == "quick" else [1200, 1500, 2500, 4000]
+
+    def gen():
+        for n in sizes:
+            yield {"kind": "large_renamed", "d1": chain_dfa(n, "q", True), "d2": chain_dfa(n, "r", True)}
+            yield {"kind": "large_differs_at_the_end", "d1": chain_dfa(n, "q", True), "d2": chain_dfa(n, "r", False)}
+            yield {"kind": "large_differs_in_size", "d1": chain_dfa(n, "q", True, 2), "d2": chain_dfa(n + 1, "r", True, 2)}
+    return ("counter chains of %r states: renamed copy, acceptance differing only in the last states, sizes differing by one" % sizes, gen())
+
+
+CLAUSES += [
+    Clause("large_isomorphic1", None, make_run_large("dfa_isomorphic1"), quick=0, thorough=0, exhaustive=ex_large, watchdog=300,
+           rule="dfa_isomorphic1 on pairs of DFAs with 1200-4000 reachable states whose only difference (if any) is found after more than a thousand matched pairs; same oracle, both argument orders"),
+    Clause("large_isomorphic", None, make_run_large("dfa_isomorphic"), quick=0, thorough=0, exhaustive=ex_large, watchdog=300,
+           rule="dfa_isomorphic on the same large pairs"),
 ]
 from props import workbench as WB   # noqa: E402
 
